@@ -1,6 +1,6 @@
 #!/bin/bash
 # tools/try_seeded.sh <seeded-dir> [tier] [extra props...] : apply a seeded change to /repo, run the check(s), undo.
-d="$1"; tier="${2:-quick}"; shift; shift
+d="$(cd "$1" && pwd)"; tier="${2:-quick}"; shift; shift
 prop=$(python3 -c "import json,sys;print(json.load(open('$d/meta.json'))['property'])")
 cd /verif
 if ! git -C /repo diff --quiet -- clematis configs scripts; then echo "REPO DIRTY, refusing"; exit 3; fi
